@@ -2176,3 +2176,27 @@ def rule_native_arrays_get_the_prototype(ctx, rep, rid: str) -> None:
         rep.ok(rid, key, {"note": "containers are built elsewhere (judged by C11-R10)"})
     else:
         rep.bad(rid, key, f"{tj.qual} builds `{short(unlinked[0].value, 20)}` (line {unlinked[0].lineno}) without a prototype: a list or dict the embedder hands in is not an Array/Object for instanceof, and has none of the inherited members a script-made one has", f"{tj.module.rel}:{unlinked[0].lineno}")
+
+
+def rule_function_prototype_objects_are_ordinary(ctx, rep, rid: str) -> None:
+    """The object created as F.prototype when a function is made is an ordinary object: its own prototype is
+    Object.prototype.  Left without one, everything `new F` makes has a chain that ends too early -
+    `new F() instanceof Object` is false."""
+    rep.rule(rid, "where a closure is created, the object installed as the function's prototype property is linked to the Object prototype (like an object literal) before it is installed", floor=1)
+    df, chain = ctx.facts.vm_dispatcher()
+    body = chain.body_of("MAKE_CLOSURE")
+    if body is None:
+        raise AnalysisError(f"{rid}: the dispatcher has no MAKE_CLOSURE branch")
+    made = [a for s_ in body for a in ast.walk(s_) if isinstance(a, ast.Assign) and isinstance(a.value, ast.Call) and norm(a.value.func) == "JSObject" and len(a.targets) == 1 and isinstance(a.targets[0], ast.Name)]
+    installed = [a for s_ in body for a in ast.walk(s_) if isinstance(a, ast.Assign) and any(isinstance(t, ast.Attribute) and t.attr == "_prototype" for t in a.targets) and isinstance(a.value, ast.Name) and a.value.id in {m.targets[0].id for m in made}]
+    if not installed:
+        raise AnalysisError(f"{rid}: MAKE_CLOSURE installs no prototype object")
+    for a in installed:
+        v = a.value.id
+        key = f"{df.qual}:MAKE_CLOSURE:{v}:inherits-Object.prototype"
+        mk = next(m for m in made if m.targets[0].id == v)
+        linked = bool(mk.value.args) or any(isinstance(x, ast.Assign) and any(norm(t) == f"{v}._prototype" for t in x.targets) for s_ in body for x in ast.walk(s_))
+        if linked:
+            rep.ok(rid, key)
+        else:
+            rep.bad(rid, key, f"the MAKE_CLOSURE handler installs `{v} = JSObject()` as the function's prototype property without giving it a prototype of its own: `function F(){{}}; new F() instanceof Object` is false and Object.getPrototypeOf(F.prototype) is not Object.prototype", f"{df.module.rel}:{mk.lineno}")
